@@ -47,7 +47,8 @@ var allCmdTypes = []string{"UpdatePromiseCommand", "CreatePromiseCommand", "Upda
 	"CreateCallbackCommand", "CompleteTasksCommand", "CreateTasksCommand", "DeleteCallbacksCommand", "CreateTaskCommand",
 	"CreatePromiseAndTaskCommand", "UpdateTaskCommand", "AcquireLockCommand", "ReleaseLockCommand", "HeartbeatLocksCommand",
 	"TimeoutLocksCommand", "HeartbeatTasksCommand", "ReadPromisesCommand", "ReadSchedulesCommand", "ReadTasksCommand",
-	"ReadEnqueueableTasksCommand", "SearchPromisesCommand", "SearchSchedulesCommand", "DeleteScheduleCommand"}
+	"ReadEnqueueableTasksCommand", "SearchPromisesCommand", "SearchSchedulesCommand", "DeleteScheduleCommand",
+	"ReadPromiseCommand", "ReadScheduleCommand", "ReadTaskCommand"}
 
 var groupOwners = map[string][]string{
 	"UpdatePromise":        {"completePromise"},
@@ -108,7 +109,8 @@ func init() {
 		rule("R6-cas", ruleCAS()).
 		rule("R14-coroutine-confinement", ruleCoroutineConfinement).
 		rule("R1R2-sql-spec", ruleSQLSpec(allKinds)).
-		rule("R9-command-provenance", ruleCmdProvenance(allCmdTypes...))
+		rule("R9-command-provenance", ruleCmdProvenance(allCmdTypes...)).
+		rule("R6-response-shapes", ruleRespProvenance(allRespTypes...))
 
 	regProp("C04",
 		[]string{
@@ -118,12 +120,13 @@ func init() {
 		},
 		[]string{"tick placement and the three-way race (reduced to C01's write-once)", "a fresh create with a timeout already in the past answers 201 pending (see DESIGN.md §5 C04: read as outside the statement)"}).
 		rule("R7-decision-tables", ruleTables(tblComplete, tblRead, tblCreate, tblTimedoutState)).
-		rule("R9-command-provenance", ruleCmdProvenance("UpdatePromiseCommand", "ReadPromisesCommand")).
+		rule("R9-command-provenance", ruleCmdProvenance("UpdatePromiseCommand", "ReadPromisesCommand", "ReadPromiseCommand")).
 		rule("R1R2-sql-spec", ruleSQLSpec(kindList("ReadPromises", "UpdatePromise"))).
 		rule("R6-object-provenance", ruleObjProvenance("Promise", "Promise.patch")).
 		rule("R6-cas", ruleCAS("ReadPromise", "CreatePromise", "CreatePromiseAndTask", "CompletePromise", "SearchPromises")).
 		rule("R14-coroutine-confinement", ruleCoroutineConfinement).
-		rule("R14-clock-fresh", ruleClockFresh)
+		rule("R14-clock-fresh", ruleClockFresh).
+		rule("R6-response-shapes", ruleRespProvenance("ReadPromiseResponse", "CompletePromiseResponse"))
 
 	regProp("C05",
 		[]string{
@@ -136,13 +139,14 @@ func init() {
 		rule("R7-decision-tables", ruleTables(tblCreateCallback, tblCreateSubscription)).
 		rule("R5-completion-group", ruleCompletionGroup).
 		rule("R5-groups", ruleWhoConstructs(groupOwners)).
-		rule("R9-command-provenance", ruleCmdProvenance("CreateCallbackCommand", "CompleteTasksCommand", "CreateTasksCommand", "DeleteCallbacksCommand", "UpdatePromiseCommand")).
+		rule("R9-command-provenance", ruleCmdProvenance("CreateCallbackCommand", "CompleteTasksCommand", "CreateTasksCommand", "DeleteCallbacksCommand", "UpdatePromiseCommand", "ReadPromiseCommand")).
 		rule("R1R2-sql-spec", ruleSQLSpec(kindList("CreateCallback", "DeleteCallbacks", "CreateTasks", "UpdatePromise", "CompleteTasks"))).
 		rule("R1-table-writers", ruleTableWriters("callbacks", true)).
 		rule("schema", ruleSchema(callbackSchema)).
 		rule("R6-object-provenance", ruleObjProvenance("Callback")).
 		rule("R6-cas", ruleCAS("CreateCallback", "CreateSubscription")).
-		rule("R15-derived-ids", ruleDerivedIds)
+		rule("R15-derived-ids", ruleDerivedIds).
+		rule("R6-response-shapes", ruleRespProvenance("CreateCallbackResponse", "CreateSubscriptionResponse"))
 
 	regProp("C07",
 		[]string{
@@ -155,11 +159,13 @@ func init() {
 		rule("R7-decision-tables", ruleTables(tblClaim, tblCompleteTask)).
 		rule("R1R2-sql-spec", ruleSQLSpec(kindsOf("tasks"))).
 		rule("schema", ruleSchema(taskSchema)).
-		rule("R9-command-provenance", ruleCmdProvenance("UpdateTaskCommand", "CreateTaskCommand", "HeartbeatTasksCommand", "ReadTasksCommand")).
+		rule("R9-command-provenance", ruleCmdProvenance("UpdateTaskCommand", "CreateTaskCommand", "HeartbeatTasksCommand", "ReadTasksCommand", "ReadTaskCommand", "ReadPromiseCommand")).
 		rule("R6-object-provenance", ruleObjProvenance("Task.patch")).
 		rule("R6-cas", ruleCAS("ClaimTask", "CompleteTask", "HeartbeatTasks")).
 		rule("R14-coroutine-confinement", ruleCoroutineConfinement).
-		rule("R14-clock-fresh", ruleClockFresh)
+		rule("R14-clock-fresh", ruleClockFresh).
+		rule("R17-commands-submitted", ruleCommandsSubmitted).
+		rule("R6-response-shapes", ruleRespProvenance("ClaimTaskResponse", "CompleteTaskResponse", "HeartbeatTasksResponse"))
 
 	regProp("C08",
 		[]string{
@@ -177,8 +183,9 @@ func init() {
 		rule("R17-tick", ruleTick).
 		rule("sweep-answers", ruleSweepAnswers).
 		rule("R1R2-sql-spec", ruleSQLSpec(kindList("CreatePromiseAndTask", "CreatePromise", "CreateTask", "ReadEnqueueableTasks", "CompleteTasks", "UpdateTask"))).
-		rule("R9-command-provenance", ruleCmdProvenance("CreateTaskCommand", "CreatePromiseAndTaskCommand", "UpdateTaskCommand", "CompleteTasksCommand", "ReadEnqueueableTasksCommand")).
-		rule("R6-object-provenance", ruleObjProvenance("Task", "SenderSubmission"))
+		rule("R9-command-provenance", ruleCmdProvenance("CreateTaskCommand", "CreatePromiseAndTaskCommand", "UpdateTaskCommand", "CompleteTasksCommand", "ReadEnqueueableTasksCommand", "ReadPromiseCommand")).
+		rule("R6-object-provenance", ruleObjProvenance("Task", "SenderSubmission")).
+		rule("R17-commands-submitted", ruleCommandsSubmitted)
 
 	regProp("C09",
 		[]string{
@@ -194,7 +201,8 @@ func init() {
 		rule("R9-command-provenance", ruleCmdProvenance("AcquireLockCommand", "ReleaseLockCommand", "HeartbeatLocksCommand", "TimeoutLocksCommand")).
 		rule("R6-object-provenance", ruleObjProvenance("Lock")).
 		rule("R6-cas", ruleCAS("AcquireLock", "ReleaseLock", "HeartbeatLocks")).
-		rule("R14-clock-fresh", ruleClockFresh)
+		rule("R14-clock-fresh", ruleClockFresh).
+		rule("R6-response-shapes", ruleRespProvenance("AcquireLockResponse", "ReleaseLockResponse", "HeartbeatLocksResponse"))
 
 	regProp("C10",
 		[]string{
@@ -206,13 +214,16 @@ func init() {
 		rule("R7-decision-tables", ruleTables(tblCreateSchedule, tblDeleteSchedule)).
 		rule("R1R2-sql-spec", ruleSQLSpec(kindsOf("schedules"))).
 		rule("schema", ruleSchema(scheduleSchema)).
-		rule("R9-command-provenance", ruleCmdProvenance("CreatePromiseCommand", "UpdateScheduleCommand", "CreateScheduleCommand", "ReadSchedulesCommand", "DeleteScheduleCommand")).
+		rule("R9-command-provenance", ruleCmdProvenance("CreatePromiseCommand", "UpdateScheduleCommand", "CreateScheduleCommand", "ReadSchedulesCommand", "DeleteScheduleCommand", "ReadScheduleCommand")).
 		rule("R5-creation-group", ruleCreationGroup).
 		rule("R17-tick", ruleTick).
 		rule("R5-groups", ruleWhoConstructs(groupOwners)).
 		rule("R6-object-provenance", ruleObjProvenance("Schedule")).
 		rule("R6-cas", ruleCAS("CreateSchedule", "DeleteSchedule")).
-		rule("R14-clock-fresh", ruleClockFresh)
+		rule("R14-clock-fresh", ruleClockFresh).
+		rule("R9-schedule-marker-tags", ruleScheduleMarkerTags).
+		rule("R6-response-shapes", ruleRespProvenance("CreateScheduleResponse", "ReadScheduleResponse", "DeleteScheduleResponse")).
+		rule("R7-decision-tables-2", ruleTables(tblReadSchedule))
 
 	regProp("C14",
 		[]string{
@@ -229,7 +240,8 @@ func init() {
 		rule("R15-search-text", ruleSearchText(false)).
 		rule("R12-cursor", ruleCursorVerified).
 		rule("R12-request-asserts", ruleRequestAsserts).
-		rule("R6-cas", ruleCAS("SearchPromises"))
+		rule("R6-cas", ruleCAS("SearchPromises")).
+		rule("R6-response-shapes", ruleRespProvenance("SearchPromisesResponse", "SearchSchedulesResponse"))
 }
 
 func init() {
@@ -246,7 +258,10 @@ func init() {
 		rule("R13-front-end-siblings", ruleFrontEndSiblings).
 		rule("R12-unwrap-nil", ruleUnwrapNil).
 		rule("R13-error-rendered", ruleErrorRendered).
-		rule("R10-http-reply-once", ruleHttpReplyOnce)
+		rule("R10-http-reply-once", ruleHttpReplyOnce).
+		rule("R6-response-shapes", ruleRespProvenance(allRespTypes...)).
+		rule("R12-union-literals", ruleUnionLiterals).
+		rule("R7-decision-tables", ruleTables(tblReadSchedule, tblHeartbeatLocks, tblHeartbeatTasks, tblSearchSchedules, tblAcquire, tblRelease, tblDeleteSchedule))
 }
 
 func init() {
@@ -263,8 +278,9 @@ func init() {
 		rule("R5-groups", ruleWhoConstructs(groupOwners)).
 		rule("R5-completion-group", ruleCompletionGroup).
 		rule("R5-creation-group", ruleCreationGroup).
-		rule("R9-command-provenance", ruleCmdProvenance("UpdatePromiseCommand", "CreatePromiseCommand", "CreateTaskCommand")).
-		rule("R6-cas", ruleCAS("CreatePromise", "CreatePromiseAndTask", "CompletePromise"))
+		rule("R9-command-provenance", ruleCmdProvenance("UpdatePromiseCommand", "CreatePromiseCommand", "CreateTaskCommand", "ReadPromiseCommand")).
+		rule("R6-cas", ruleCAS("CreatePromise", "CreatePromiseAndTask", "CompletePromise")).
+		rule("R6-response-shapes", ruleRespProvenance("CreatePromiseResponse", "CreatePromiseAndTaskResponse", "CompletePromiseResponse"))
 }
 
 func init() {
@@ -304,7 +320,8 @@ func init() {
 		rule("sweep-answers", ruleSweepAnswers).
 		rule("R10-exactly-once", ruleExactlyOnce).
 		rule("R1R2-sql-spec", ruleSQLSpec(kindList("ReadPromises", "ReadSchedules", "ReadTasks", "ReadEnqueueableTasks", "TimeoutLocks", "UpdatePromise", "UpdateSchedule", "UpdateTask"))).
-		rule("R9-command-provenance", ruleCmdProvenance("ReadPromisesCommand", "ReadSchedulesCommand", "ReadTasksCommand", "ReadEnqueueableTasksCommand", "TimeoutLocksCommand", "UpdatePromiseCommand", "UpdateScheduleCommand", "UpdateTaskCommand"))
+		rule("R9-command-provenance", ruleCmdProvenance("ReadPromisesCommand", "ReadSchedulesCommand", "ReadTasksCommand", "ReadEnqueueableTasksCommand", "TimeoutLocksCommand", "UpdatePromiseCommand", "UpdateScheduleCommand", "UpdateTaskCommand")).
+		rule("R17-commands-submitted", ruleCommandsSubmitted)
 
 	regProp("C12",
 		[]string{
@@ -344,6 +361,9 @@ func init() {
 		rule("R12-unwrap-nil", ruleUnwrapNil).
 		rule("R3-sql-origin", ruleSQLOrigin).
 		rule("R12-row-count-asserts", ruleSQLRowCounts).
+		rule("R12-union-literals", ruleUnionLiterals).
+		rule("R12-err-dominates-use", ruleErrDominatesUse).
+		rule("R12-records-index", ruleRecordsIndex).
 		rule("R13-front-end-siblings", ruleFrontEndSiblings)
 }
 
